@@ -362,6 +362,17 @@ def evalCC (cc : List (List (Rat × Rat))) (q : Rat × Rat) : Rat × Rat :=
 /-- `self(x, y)` -/
 def eval (P : Poly2d) (p : Rat × Rat) : Rat × Rat := evalCC P.cc (norm P.A p)
 
+/-- `self.grid2d(x, y)`: evaluation on the Cartesian product of `xs` and `ys`, only for input
+transforms without rotation / shear (`assert self._safe_to_grid`); `out[i][j]` is the pair of
+outputs at `(xs[i], ys[j])` (numpy: `out[:, i, j]`, shape `(2, len(x), len(y))`). -/
+def grid2d (P : Poly2d) (xs ys : List Rat) : Res (List (List (Rat × Rat))) :=
+  if ¬ (P.A.b = 0 ∧ P.A.d = 0) then .error .assertion
+  else
+    -- `x, y = self._norm(x, y)` on the axes separately (the shortcut branch of `_norm`)
+    let xn := xs.map fun x => P.A.a * x + P.A.c
+    let yn := ys.map fun y => P.A.e * y + P.A.f
+    .ok (xn.map fun x => yn.map fun y => evalCC P.cc (x, y))     -- polygrid2d(x, y, self._cc)
+
 /-- `self.with_input_transform(A)` -/
 def withInputTransform (P : Poly2d) (A : Aff) : Poly2d := ⟨P.cc, P.A * A⟩
 
